@@ -278,3 +278,95 @@ func EscapeString(s string) string {
 	}
 	return string(out)
 }
+
+// GoVersionREFind models (*regexp.Regexp).FindStringSubmatch for the pattern
+// `^-(go.+)\.[^.]+-[^.]+$` used by configgen.goVersions: the text after the last dot has
+// the form A-B (both non-empty; it cannot contain a dot), the text before it is "-go"
+// followed by at least one character.
+func GoVersionREFind(s string) []string {
+	p := -1
+	for i := len(s) - 1; i >= 0; i-- {
+		if s[i] == '.' {
+			p = i
+			break
+		}
+	}
+	if p < 4 || s[0] != '-' || s[1] != 'g' || s[2] != 'o' {
+		return nil
+	}
+	tail := s[p+1:]
+	ok := false
+	for i := 1; i+1 < len(tail); i++ {
+		if tail[i] == '-' {
+			ok = true
+		}
+	}
+	if !ok {
+		return nil
+	}
+	return []string{s, s[1:p]}
+}
+
+// ScanSemver models fmt.Sscanf(s, "v%d.%d.%d", &a, &b, &c): three decimal integers
+// (optionally signed) separated by dots after a leading 'v'; trailing text is ignored.
+func ScanSemver(s string, a, b, c *int) (int, error) {
+	i := 0
+	if i >= len(s) || s[i] != 'v' {
+		return 0, errScan
+	}
+	i++
+	n := 0
+	for k, dst := range []*int{a, b, c} {
+		if k > 0 {
+			if i >= len(s) || s[i] != '.' {
+				return n, errScan
+			}
+			i++
+		}
+		neg := false
+		if i < len(s) && (s[i] == '+' || s[i] == '-') {
+			neg = s[i] == '-'
+			i++
+		}
+		start := i
+		v := 0
+		for i < len(s) && s[i] >= '0' && s[i] <= '9' {
+			v = v*10 + int(s[i]-'0')
+			i++
+		}
+		if i == start {
+			return n, errScan
+		}
+		if neg {
+			v = -v
+		}
+		*dst = v
+		n++
+	}
+	return n, nil
+}
+
+var errScan = &StrError{S: "input does not match format"}
+
+// SortInterface models sort.Sort / sort.Stable with an insertion sort.
+func SortInterface(data interface {
+	Len() int
+	Less(i, j int) bool
+	Swap(i, j int)
+}) {
+	n := data.Len()
+	for i := 1; i < n; i++ {
+		for j := i; j > 0 && data.Less(j, j-1); j-- {
+			data.Swap(j, j-1)
+		}
+	}
+}
+
+// IsSpaceRune models unicode.IsSpace (the White_Space property).
+func IsSpaceRune(r rune) bool {
+	switch r {
+	case '\t', '\n', '\v', '\f', '\r', ' ', 0x85, 0xA0, 0x1680, 0x2028, 0x2029, 0x202f, 0x205f, 0x3000:
+		return true
+	}
+	return r >= 0x2000 && r <= 0x200a
+}
